@@ -49,7 +49,10 @@ def check_fragment(s):
         assert systemid == _xe
         assert publicid is None
         eparser = parser.ExternalEntityParserCreate(context)
-        eparser.Parse(s.encode('UTF-8'), True)
+        # A lone surrogate (e.g. from a file in raw_unicode_escape) cannot be
+        # encoded strictly; pass it on, so that expat rejects it as an invalid
+        # token, like U+0000 or U+FFFE:
+        eparser.Parse(s.encode('UTF-8', 'surrogatepass'), True)
         return 1
     parser = xml.parsers.expat.ParserCreate('UTF-8')
     parser.ExternalEntityRefHandler = ee_handler
